@@ -227,6 +227,10 @@ def runModel (lines : List String) : List String :=
 def runJudge (body : List String) : List String :=
   let (input, impl) := splitJudge body
   let p := parseCase input
+  -- complaints of the harness about the case itself (shrinking may produce such cases) are not driver crashes
+  match impl.find? (fun l => l.startsWith "r " || l.startsWith "badcmd" || l.startsWith "badop") with
+  | some l => [s!"bad malformed-case {l}"]
+  | none =>
   match judgeEv p.expect (impl.map parseEv) with
   | [] => ["ok"]
   | vs => vs.map (fun v => s!"bad {v}")
